@@ -32,7 +32,7 @@ func c08exec(c *Ctx, st *c08state, op Op) Ev {
 	name := gets(op, "op")
 	k := geti(op, "k")
 	ev := Ev{"op": name, "k": k, "v": [2]int{0, 0}, "limit": 0, "unit": false, "res": true, "rv": [3]int{0, 0, 0},
-		"len": 0, "size": 0, "evs": [][3]int{}}
+		"len": 0, "size": 0, "evs": [][3]int{}, "n": 0}
 	guard(ev, func() {
 		st.evs = nil
 		switch name {
@@ -53,6 +53,28 @@ func c08exec(c *Ctx, st *c08state, op Op) Ev {
 		case "get":
 			v, ok := st.c.Get(k)
 			ev["rv"] = [3]int{v.Tag, v.Size, b2i(ok)}
+		case "getn": // n consecutive Gets of the same key; same is false if any answer differed from the first
+			n := geti(op, "n")
+			ev["n"] = n
+			v0, ok0 := st.c.Get(k)
+			same := true
+			for j := 1; j < n; j++ {
+				if v, ok := st.c.Get(k); v != v0 || ok != ok0 {
+					same = false
+				}
+			}
+			ev["rv"] = [3]int{v0.Tag, v0.Size, b2i(ok0)}
+			ev["res"] = same
+		case "fill": // Put keys k .. k+n-1 (value {key, 1}) in order; res = every Put reported true
+			n := geti(op, "n")
+			ev["n"] = n
+			all := true
+			for j := 0; j < n; j++ {
+				if !st.c.Put(k+j, cv{k + j, 1}) {
+					all = false
+				}
+			}
+			ev["res"] = all
 		case "has":
 			ev["res"] = st.c.Has(k)
 		case "remove":
@@ -90,6 +112,34 @@ func runC08(c *Ctx) {
 				q = append(q, Op{"op": "put", "k": 1000 + j, "v": []any{float64(9), float64(1)}})
 			}
 			replayC08(c, c.NewHist("tlc-path+reveal"), q)
+		}
+	}
+	// integer-width corners: an entry that stays unused while another is used
+	// tens of thousands of times; more than 2^16 resident entries
+	for i := 0; i < c.Pick(2, 8); i++ {
+		rng := c.Rng("c08-wide", i)
+		h := c.NewHist("wide")
+		st := &c08state{}
+		do := func(op Op) { h.Emit(c08exec(c, st, op)) }
+		if i%2 == 0 {
+			lim := 2 + rng.Intn(3)
+			do(Op{"op": "new", "limit": lim, "unit": true})
+			do(Op{"op": "fill", "k": 1, "n": lim})
+			for r := 0; r < 3; r++ {
+				do(Op{"op": "getn", "k": lim, "n": 33000 + rng.Intn(40000)})
+				do(Op{"op": "put", "k": 100 + r, "v": []any{float64(100 + r), float64(1)}})
+				do(Op{"op": "get", "k": lim})
+			}
+			do(Op{"op": "clear"})
+		} else {
+			n := 66000 + rng.Intn(5000)
+			do(Op{"op": "new", "limit": n, "unit": true})
+			do(Op{"op": "fill", "k": 1, "n": n})
+			for j := 0; j < 12; j++ {
+				do(Op{"op": []string{"get", "has", "remove"}[rng.Intn(3)], "k": n - rng.Intn(4000)})
+			}
+			do(Op{"op": "put", "k": n + 1, "v": []any{float64(7), float64(1)}})
+			do(Op{"op": "put", "k": n + 2, "v": []any{float64(8), float64(1)}})
 		}
 	}
 	nh := c.Pick(400, 10000)
